@@ -12,6 +12,7 @@ class VLoop(asyncio.SelectorEventLoop):
     def __init__(self):
         super().__init__()
         self._vt = 0.0
+        self._clock_resolution = 1e-6     # deadlines are sums of float seconds: treat timers within 1 us as due
         sel = self._selector
         orig = sel.select
         sel.select = lambda timeout=None: orig(0)
@@ -29,10 +30,10 @@ class VLoop(asyncio.SelectorEventLoop):
             sched = [h for h in self._scheduled if not h._cancelled]
             if not sched: break
             nxt = min(h._when for h in sched)
-            if nxt > target: break
-            self._vt = nxt
+            if nxt > target + 1e-6: break
+            self._vt = max(nxt, self._vt)
             self.call_soon(self.stop); self.run_forever()
-        self._vt = target
+        self._vt = max(target, self._vt)
         self.settle()
 
 class Wire:
